@@ -62,7 +62,7 @@ var (
 	verifClosedCh      = func() chan struct{} { c := make(chan struct{}); close(c); return c }()
 )
 
-// verifCtx is done exactly when the subscription's current item has no successor yet, i.e. when
+// verifCtx is done exactly when the subscription's current item has no published successor yet, i.e. when
 // bufferItem.Next would have to wait. Next evaluates ctx.Done() once per item it visits, so a call
 // with this context returns the next deliverable event if one exists (however many items Next
 // decides to skip) and errVerifWouldBlock otherwise - without the harness re-implementing Next.
@@ -70,10 +70,14 @@ type verifCtx struct{ s *Subscription }
 
 func (verifCtx) Deadline() (time.Time, bool) { return time.Time{}, false }
 func (c verifCtx) Done() <-chan struct{} {
-	if _, ok := c.s.currentItem.NextNoBlock(); ok {
+	// what bufferItem.Next waits for is the close of the link's channel (the next pointer is stored
+	// a moment earlier, so it is not the criterion: a thread parked between the two would make Next wait)
+	select {
+	case <-c.s.currentItem.link.ch:
 		return nil
+	default:
+		return verifClosedCh
 	}
-	return verifClosedCh
 }
 func (verifCtx) Err() error                        { return errVerifWouldBlock }
 func (verifCtx) Value(key interface{}) interface{} { return nil }
@@ -94,3 +98,17 @@ func (s *Subscription) VerifCtx() context.Context { return verifCtx{s} }
 
 // VerifWouldBlock reports whether err is the "nothing deliverable right now" answer of VerifCtx.
 func VerifWouldBlock(err error) bool { return errors.Is(err, errVerifWouldBlock) }
+
+// VerifHasNext reports whether the subscription is closed or its current item has a successor, i.e.
+// whether Next would do something other than wait.
+func (s *Subscription) VerifHasNext() bool {
+	if atomic.LoadUint32(&s.state) != subStateOpen {
+		return true
+	}
+	select {
+	case <-s.currentItem.link.ch:
+		return true
+	default:
+		return false
+	}
+}
